@@ -3,6 +3,7 @@ package props
 import (
 	"fmt"
 	"runtime"
+	"sync"
 	"time"
 
 	"pipelined.dev/signal"
@@ -372,6 +373,61 @@ func runC13(c *core.Ctx) {
 		c.Obs("grown_buffers_rechecked_after_gc", int64(len(grown)))
 		c.Obs("allocation_rounds_after_forced_gc", 1)
 		runtime.KeepAlive(liveViews)
+	}
+	// allocations of DIFFERENT element types made at the same time from
+	// several goroutines: each goroutine checks its own buffers (shape, bit
+	// depth, zero contents) and hands back the first disagreement
+	if c.Mine(0) && c.Want("concurrent-types") {
+		const G = 8
+		type bad struct{ key, msg string }
+		res := make([][]bad, G)
+		counts := make([]int64, G)
+		var wg sync.WaitGroup
+		start := make(chan struct{})
+		rounds := c.Pick(4000, 40000)
+		for g := 0; g < G; g++ {
+			wg.Add(1)
+			go func(g int) {
+				defer wg.Done()
+				rr := core.NewRand(c.Seed, 1313, uint64(g))
+				<-start
+				for i := 0; i < rounds && len(res[g]) == 0; i++ {
+					t := dyn.Types[(g*5+i/64)%len(dyn.Types)] // each goroutine stays on one type for a while
+					al := signal.Allocator{Channels: rr.Range(1, 4), Capacity: rr.Range(0, 6)}
+					al.Length = rr.Range(0, al.Capacity)
+					var b dyn.Buf
+					if p, msg := core.Guard(func() { b = t.Alloc(al) }); p {
+						res[g] = append(res[g], bad{"Alloc[" + t.Name + "]|panic", "Alloc panicked while other goroutines allocated other element types: " + msg})
+						break
+					}
+					counts[g]++
+					if b.BitDepth() != t.Bits {
+						res[g] = append(res[g], bad{"Alloc[" + t.Name + "]|depth", fmt.Sprintf("BitDepth=%d for element type %s of %d bits (allocation %d of goroutine %d, other goroutines allocating other element types at the same time)", b.BitDepth(), t.Name, t.Bits, i, g)})
+					}
+					if b.Channels() != al.Channels || b.Length() != al.Length || b.Capacity() != al.Capacity || b.RawLen() != al.Channels*al.Length || b.RawCap() != al.Channels*al.Capacity {
+						res[g] = append(res[g], bad{"Alloc[" + t.Name + "]|shape", fmt.Sprintf("Alloc{C=%d,L=%d,K=%d} gives %v while other goroutines allocate", al.Channels, al.Length, al.Capacity, mon.ShapeOf(b))})
+					}
+					for j := 0; j < b.RawCap(); j++ {
+						if !b.RawAt(j).IsZero() {
+							res[g] = append(res[g], bad{"Alloc[" + t.Name + "]|nonzero", fmt.Sprintf("position %d of a fresh allocation is %v while other goroutines allocate", j, b.RawAt(j))})
+							break
+						}
+					}
+					if i%7 == 0 {
+						runtime.Gosched()
+					}
+				}
+			}(g)
+		}
+		close(start)
+		wg.Wait()
+		for g := 0; g < G; g++ {
+			c.Eval(counts[g])
+			c.Obs("allocations_made_while_other_goroutines_allocate_other_element_types", counts[g])
+			for _, b := range res[g] {
+				c.Violate(b.key, "concurrent-types", b.msg, map[string]any{"goroutines": G, "scenario": "8 goroutines allocate buffers of different element types at the same time"})
+			}
+		}
 	}
 	c.Floor("allocation_rounds_after_forced_gc", 10)
 	c.Floor("zero_capacity_pairs_checked_under_growth", 20)
